@@ -29,7 +29,7 @@ RULE = ("exact stream: dyadic coordinates of shapes (3,), (n,3), (m,n,3) incl. b
         "displacement/index_displacement/distance (ndarrays and AtomArray/AtomArrayStack objects carrying their own box, with and without an explicit box)/coord_to_fraction/fraction_to_coord/move_inside_box/"
         "remove_pbc_from_coord/remove_pbc/repeat_box(_coord)/is_orthogonal/box_volume/centroid/90-degree unit cells, compared as exact "
         "rationals with the Lean model; float stream: random float32/float64 geometry judged by the oracle "
-        "(textbook formulae, rigid-motion invariance, lattice enumeration). non-trivial = at least two distinct "
+        "(textbook formulae, rigid-motion invariance, lattice enumeration; periodic distance/angle/dihedral with every consecutive atom pair split across a box face; properness of every transform.py helper incl. (nearly) antiparallel align_vectors). non-trivial = at least two distinct "
         "coordinates and (box given => some coordinate pair crosses a box face) or an error branch; "
         "distinct = different (kind, ops / float payload)")
 TRUSTED = ["numpy broadcasting, matmul, linalg.inv/det, fancy indexing, cumsum modelled by their documented semantics",
@@ -43,7 +43,8 @@ LEVEL_TEXT = ("Lean 4 proofs over Q / commutative rings for: rigid-motion invari
               "both dihedral atan2 arguments; index variants == coordinate variants with the documented box (explicit box overrides the atoms' own box; branch order re-extracted from the source); orthogonal-box displacement is a "
               "lattice translate of the difference and the shortest image (all integer shifts); triclinic displacement "
               "is a lattice translate and the shortest image whenever some image is shorter than half the smallest box "
-              "height (squared form); move_inside_box lands in [0,1)^3, moves by a lattice vector, is idempotent; "
+              "height (squared form); displacement and the periodic distance/angle/dihedral arguments are unchanged when any "
+              "atom is wrapped by a lattice vector (every box); move_inside_box lands in [0,1)^3, moves by a lattice vector, is idempotent; "
               "coord_to_fraction/fraction_to_coord are mutually inverse; repeat_box enumerates every lattice shift of the "
               "cube exactly once; remove_pbc_from_coord moves every atom by a lattice vector and leaves array neighbours at "
               "their minimum-image displacement, i.e. every pair of array neighbours of a molecule ends as the shortest of its "
